@@ -2,7 +2,7 @@
    generators (formal contexts, by index and by name, base generator, base object set); for
    many-valued contexts every returned generator has the extension of the intent inside the base
    object set.  Only statements; proofs are in Lemmas/C18.v and Lemmas/C18_MV.v. *)
-From FCA Require Import Model.C18_MinGen Spec.C18_MinGenSpec Lemmas.C18 Lemmas.C18_MV Lemmas.C18_Diff Lemmas.C18_Term.
+From FCA Require Import Model.C18_MinGen Spec.C18_MinGenSpec Lemmas.C18 Lemmas.C18_MV Lemmas.C18_Diff Lemmas.C18_Term Lemmas.C18_Dups.
 From Coq Require Import ZArith.
 Local Open Scope nat_scope.
 
@@ -18,6 +18,18 @@ Theorem C18_mingen_exact : forall b t intent bg bo,
   forall D, In D l <-> In D (mingens_spec t intent (default [] bg) (default (all_objs t) bo)).
 Proof. exact get_minimal_generators_i_exact. Qed.
 Print Assumptions C18_mingen_exact.
+
+(* the duplicate-free hypothesis on the base generator can be dropped if the answer is read as a
+   set of SETS: with a base generator listed with repeats the code returns listings carrying the
+   same repeats (e.g. (0, 1, 1)); their underlying sets are exactly the minimum generators *)
+Theorem C18_mingen_exact_with_repeats : forall b t intent bg bo,
+  wf t -> opt_in_range (height t) bo -> in_range (width t) (default [] bg) ->
+  let l := get_minimal_generators_i b t intent bg bo in
+  let spec := mingens_spec t intent (default [] bg) (default (all_objs t) bo) in
+  (forall D', In D' l -> In (canon_set (width t) D') spec) /\
+  (forall D, In D spec -> exists D', In D' l /\ canon_set (width t) D' = D).
+Proof. exact get_minimal_generators_i_dups. Qed.
+Print Assumptions C18_mingen_exact_with_repeats.
 
 (* what membership in the specification's list means *)
 Theorem C18_mingens_spec_meaning : forall t intent bg bo D,
